@@ -11,7 +11,7 @@ iteration of the spawn loop with reuse_address(true) and reuse_port(true) set be
 from Server::process_events; the config mutex is taken only in main and in the worker prologue; (3) shared-state inventory: the closure passed to spawn captures
 exactly the Arc<Mutex<config>>, the worker's own UdpSocket and the Arc<StatsQueue>; the only statics with interior mutability in the library and the server binary are
 listed (KEEP_RUNNING); Server holds a Box<dyn ServerStats> without a Send bound, so it is !Send and the serving state cannot be moved or shared between threads
-(confirmed by a compile_fail witness in the thorough tier); no `unsafe impl Send/Sync` exists in the crate.  (4) Per-worker behaviour is C08 + C09; one long-term key for all workers is C10.3.
+(confirmed by a compile_fail witness in the thorough tier); no `unsafe impl Send/Sync` exists in the crate.  (4) Per-worker behaviour is C08 + C09; one long-term key for all workers is C10.3.The shared configuration is read-only once it exists: no call takes the `dyn ServerConfig` (or its mutex guard) by &mut, so every worker builds its Server from the same values.
 """
 NOT_DECIDED = "kernel distribution of datagrams among the sockets; actual thread schedules"
 TRUSTED = ["SO_REUSEPORT semantics", "crossbeam ArrayQueue is a lock-free MPMC queue"]
